@@ -63,7 +63,7 @@ def _repo_frame(text):
         return fn.strip()
     for path, fn in frames:
         # the host touching guest memory at completion time / probing a registered callback_ptr
-        if any(x in fn for x in ("probe_ptr", "payload::probe", "host_read_elem", "host_write_elem")):
+        if any(x in fn for x in ("probe_ptr", "payload::probe", "host_read_elem", "host_write_elem", "sub_read_params", "sub_write_results")):
             return "host access to guest memory (buffer or registered pointer no longer valid)", clean(fn)
     for path, fn in frames:
         if "guest-rust/src" in path or (repo in path and "guest-rust" in path) or "async_support" in path:
